@@ -25,6 +25,12 @@ def main():
     meta = {"seed_id": sid, "property": prop, "needs_to_manifest": opt.get("--needs", ""), "source": "independent sub-agent (given only the property text and a scratch worktree)",
             "base_commit": subprocess.run("git -C /repo rev-parse --short HEAD", shell=True, stdout=subprocess.PIPE, text=True).stdout.strip(), "ran": []}
     patch = os.path.abspath(patch); demo = os.path.abspath(demo)
+    old_meta_path = f"/verif/seeded/{sid}/meta.json"
+    old = json.load(open(old_meta_path)) if os.path.exists(old_meta_path) else {}
+    if "--skip-confirm" in a and old:
+        meta["ran"] = old.get("ran", [])
+        if "confirmed" in old:
+            meta["confirmed"] = old["confirmed"]
     if "--skip-confirm" not in a:
         sh("git checkout -q -- . && git clean -qfd -e target", cwd=wt)
         rc, out = sh(f"git apply --check {patch} && git apply {patch}", cwd=wt)
@@ -36,8 +42,8 @@ def main():
         ok_build = "error" not in o1
         meta["ran"].append({"cmd": "cargo build --features verif-hooks / dudect (with patch)", "result": "ok" if ok_build else "FAIL"})
         shutil.copy(demo, os.path.join(wt, "tests", demo_name + ".rs"))
-        rc_with, o_with = sh(f"cargo test --offline {demo_args} --test {demo_name} 2>&1 | grep -E '^test result|panicked|error' | head -5", cwd=wt)
-        demo_fails = "FAILED" in o_with or "failed" in o_with and "0 failed" not in o_with
+        rc_with, o_with = sh(f"cargo test --offline {demo_args} --test {demo_name} 2>&1 | grep -E '^test result|panicked|error' | sort -r | head -5", cwd=wt)
+        demo_fails = "FAILED" in o_with or "panicked" in o_with or ("failed" in o_with and "0 failed" not in o_with)
         meta["ran"].append({"cmd": f"cargo test --offline {demo_args} --test {demo_name} (with patch)", "result": "fails" if demo_fails else "PASSES(unexpected)", "tail": o_with[-300:]})
         sh(f"git apply -R {patch}", cwd=wt)
         rc_wo, o_wo = sh(f"cargo test --offline {demo_args} --test {demo_name} 2>&1 | grep -E '^test result|panicked|error' | head -5", cwd=wt)
@@ -63,6 +69,11 @@ def main():
     finally:
         sh("git checkout -q -- . && git clean -qfd -e target", cwd="/repo")
         sh("rm -f /verif/replays/*.json")
+    prev = old.get("checks_run_against_it", {})
+    if prev:
+        meta["earlier_runs_before_checks_were_strengthened"] = old.get("earlier_runs_before_checks_were_strengthened", []) + [{k: v for k, v in prev.items() if k in results}]
+        for k, v in prev.items():
+            results.setdefault(k, v)
     meta["checks_run_against_it"] = results
     meta["caught_by"] = [c for c, r in results.items() if r["exit"] == 1]
     d = f"/verif/seeded/{sid}"
